@@ -1,5 +1,6 @@
 import UtilModel.RefCount.Props
 import UtilModel.RefCount.ObsC09
+import UtilModel.RefCount.Proofs7
 open UtilModel UtilModel.RefCount
 #print axioms UtilModel.accepts_sound
 #print axioms UtilModel.accepted_satisfies
@@ -12,3 +13,5 @@ open UtilModel UtilModel.RefCount
 #print axioms RefCount.quiescent_no_pending_api
 #print axioms RefCount.running_frame
 #print axioms RefCount.one_resolver_obs
+#print axioms RefCount.reachable_thinv
+#print axioms RefCount.api_not_stuck
